@@ -85,7 +85,10 @@ Inductive cname :=
 (* the fault sits in a still-lazy list nested in the value a consumer / closure / the program returns;
    the harness evaluates results deeply *)
 | KMuRetMapLazy | KMuRetListLazy | KMuRetMapMapLazy | KTryMuRetMapLazy
-| KMapRetLazy | KCloRetLazy | KTopMapLazy | KTopListLazy | KTopMapMapLazy.
+| KMapRetLazy | KCloRetLazy | KTopMapLazy | KTopListLazy | KTopMapMapLazy
+(* a parallel accept that rejects some items (or a parallel map followed by an accept), then a consumer
+   closure holding the fault: reduce / visit / present callback, a later map, the same inside try *)
+| KAccDown | KAccDownMap | KTryAccDown | KTryAccDownMap.
 
 (* stage 0 is the stage whose switch to parallel mode was observed; later stages run fast closures *)
 Definition build (k : cname) (f : fault) : prog :=
@@ -110,12 +113,17 @@ Definition build (k : cname) (f : fault) : prog :=
   | KMuRetMapLazy | KMuRetListLazy | KMuRetMapMapLazy => PMultiUse [PCall (PStage 1 (PCall l)); PLeaf FValue]
   | KTryMuRetMapLazy => PTry (PMultiUse [PCall (PStage 1 (PCall l)); PLeaf FValue])
   | KMapRetLazy | KCloRetLazy | KTopMapLazy | KTopListLazy | KTopMapMapLazy => PStage 1 (PCall l)
+  | KAccDown => PDown 0 (PCall l)
+  | KAccDownMap => PDown 0 (PStage 1 (PCall l))
+  | KTryAccDown => PTry (PDown 0 (PCall l))
+  | KTryAccDownMap => PTry (PDown 0 (PStage 1 (PCall l)))
   end.
 
 (* a try with a constant catch value around everything *)
 Definition try_outermost (k : cname) : bool :=
   match k with
-  | KTry | KTryClo | KTryInClo | KTryParMap | KTryCollReduce | KTryMultiUse | KTryMuRetMapLazy => true
+  | KTry | KTryClo | KTryInClo | KTryParMap | KTryCollReduce | KTryMultiUse | KTryMuRetMapLazy
+  | KTryAccDown | KTryAccDownMap => true
   | _ => false
   end.
 
@@ -127,7 +135,8 @@ Definition no_try (k : cname) : bool :=
 Definition surely_faulting (l : leafsrc) : bool :=
   match l with
   | LFault FValue => false
-  | LFault (FRecThrough _ _ _ _) => false      (* bounded recursion: a value when the guard does not count the levels *)
+  | LFault (FRecThrough _ _ _ _) | LFault (FRecMixed _ _ _ _ _) => false
+      (* bounded recursion: a value when the guard does not count the levels *)
   | LFault _ => true
   | _ => false
   end.
@@ -177,7 +186,8 @@ Definition c05_im (c : c05_case) : bool :=
 (* recursion deeper than the guard's 10000 slots must be stopped by the guard *)
 Definition guard_must_fire (l : leafsrc) : bool :=
   match l with
-  | LFault (FRecThrough _ slots _ depth) => negb (slots =? 0) && ((guard_limit + 1) / slots <? depth)
+  | LFault (FRecThrough _ slots _ depth) | LFault (FRecMixed _ _ slots _ depth) =>
+      negb (slots =? 0) && ((guard_limit + 1) / slots <? depth)
   | _ => false
   end.
 
